@@ -14,6 +14,7 @@ namespace Epsic
   half := 1/2
   isZero x := decide (x = 0)
   eq0 x := decide (x = 0)
+  ofNat n := (n : K)
 
 /-- The exact-rational instance the compiled driver runs *is* the field instance the theorems are
 about (Mathlib's `Field ℚ` is built on core's `Rat` operations). -/
@@ -30,6 +31,7 @@ variable {K : Type} [Field K] [DecidableEq K]
 @[simp] theorem half_eq : (half : K) = 1/2 := rfl
 @[simp] theorem isZero_eq (x : K) : Arith.isZero x = decide (x = 0) := rfl
 @[simp] theorem eq0_eq (x : K) : Arith.eq0 x = decide (x = 0) := rfl
+@[simp] theorem ofNat_eq (n : Nat) : (Arith.ofNat n : K) = (n : K) := rfl
 
 theorem sdiv_ok {a b : K} (h : b ≠ 0) : sdiv a b = .ok (a / b) := by simp [sdiv, h]
 theorem sdiv_err {a b : K} (h : b = 0) : sdiv a b = .error .div0 := by simp [sdiv, h]
